@@ -65,6 +65,28 @@ Theorem call_unconvertible_argument : forall hosts off f args sp st fv st1 vs st
   fst (resolve_entry hosts off (SCall f args sp) st) = Err.
 Proof. exact BridgePanic.call_unconvertible_argument. Qed.
 
+(* in particular a number that is NaN, infinite or beyond the range of the integer parameter it is
+   given to (the arguments before it converting) "cannot be converted": the bridge answers Err with
+   the state unchanged (the function is not called), Err at the entry *)
+Theorem call_num_out_of_range : forall hosts off f args sp st fv st1 vs st2 sg i k d,
+  eval hosts off f st = (Ok fv, st1) ->
+  eval_list hosts off args st1 = (Ok vs, st2) ->
+  callee_sig hosts fv = Some sg ->
+  nth_error (expanded_args vs sp) i = Some (VNum d) ->
+  arg_type (sig_params sg) (sig_variadic sg) i = Some (TInt k) ->
+  is_finite d = false \/ wrap_int k (trunc_dec d) <> trunc_dec d ->
+  (forall j b, (j < i)%nat -> nth_error (expanded_args vs sp) j = Some b ->
+     exists tj c, arg_type (sig_params sg) (sig_variadic sg) j = Some tj /\ conv_to tj b = Ok c) ->
+  call_value hosts off fv vs sp st2 = (Err, st2) /\
+  fst (resolve_entry hosts off (SCall f args sp) st) = Err.
+Proof. exact BridgePanic.call_num_out_of_range. Qed.
+
+(* left("abc", 1e30) *)
+Theorem left_out_of_range_example :
+  let e := SCall (SIdent KIdent (str "left")) [SLit KString (str "abc"); SLit KNumber (str "1e30")] false in
+  eval [] 0 e (mkR None []) = (Err, mkR None []) /\ fst (resolve_entry [] 0 e (mkR None [])) = Err.
+Proof. exact BridgePanic.ex_left_out_of_range. Qed.
+
 (* e.g. a string for an int parameter, a boolean for a decimal parameter, null for a []string *)
 Theorem unconvertible_examples :
   conv_args [TInt GInt] false [VStr (str "x")] = Err /\ conv_args [TDec] false [VBool true] = Err /\
@@ -231,9 +253,9 @@ Theorem conv_args_panic_sources : forall params variadic args,
                                       (length fixed < length args)%nat).
 Proof. exact BridgeSources.conv_args_panic_inv. Qed.
 
-(* conversions: only slice and map targets - nil for a slice parameter, an element converted to nil
-   (reflect.Append of the zero Value), a non-map for a map parameter (Key() of a non-map type), or
-   an element whose own conversion panics *)
+(* conversions: only slice and map targets - nil for a slice parameter, a non-map for a map parameter
+   (Key() of a non-map type), or an element whose own conversion panics (an element converted to nil
+   is kept as nil, it does not panic) *)
 Theorem conv_to_panic_iff : forall t v,
   conv_to t v = Panic <->
   match t with
@@ -246,7 +268,7 @@ Proof. exact BridgeSources.conv_to_panic_iff. Qed.
 Theorem conv_slice_elems_panic_iff : forall et l,
   conv_slice_elems et l = Panic <->
   exists l1 x l2, l = l1 ++ x :: l2 /\ (exists l1', conv_slice_elems et l1 = Ok l1') /\
-                  (conv_to et x = Panic \/ (et = TIface /\ x = VNull)).
+                  conv_to et x = Panic.
 Proof. exact BridgePanic.conv_slice_elems_panic_iff. Qed.
 
 Theorem conv_map_elems_panic_iff : forall et m,
@@ -270,6 +292,8 @@ Print Assumptions resolve_entry_spec.
 Print Assumptions call_non_function.
 Print Assumptions call_wrong_arity.
 Print Assumptions call_unconvertible_argument.
+Print Assumptions call_num_out_of_range.
+Print Assumptions left_out_of_range_example.
 Print Assumptions unconvertible_examples.
 Print Assumptions string_position_panics_inside.
 Print Assumptions string_position_out_of_range_left.
